@@ -1,6 +1,6 @@
 //! Evidence files (DESIGN §3.5).
 
-use crate::run::{RunReport, VERIF};
+use crate::run::{out_root, RunReport};
 use serde_json::{json, Value};
 use std::collections::BTreeMap;
 
@@ -118,7 +118,7 @@ pub fn seed() -> i64 {
 }
 
 pub fn write_evidence(prop: &str, tier: &str, coverage: Value, assumptions: Vec<String>, wall_s: f64, violations: usize, extra: BTreeMap<String, Value>) -> Result<(), String> {
-    std::fs::create_dir_all(format!("{VERIF}/evidence")).map_err(|e| e.to_string())?;
+    std::fs::create_dir_all(format!("{}/evidence", out_root())).map_err(|e| e.to_string())?;
     let mut doc = json!({
         "property_id": prop,
         "tier": tier,
@@ -134,7 +134,7 @@ pub fn write_evidence(prop: &str, tier: &str, coverage: Value, assumptions: Vec<
     for (k, v) in extra {
         doc[k] = v;
     }
-    std::fs::write(format!("{VERIF}/evidence/{prop}.json"), serde_json::to_string_pretty(&doc).unwrap()).map_err(|e| e.to_string())
+    std::fs::write(format!("{}/evidence/{prop}.json", out_root()), serde_json::to_string_pretty(&doc).unwrap()).map_err(|e| e.to_string())
 }
 
 pub fn book_evidence(rep: &RunReport) -> (Value, Vec<String>) {
